@@ -1,6 +1,7 @@
 use crate::{
     ast::{BinaryOperator, Expression},
     error::CompilerError,
+    nesting::{self, MAX_NESTING},
 };
 
 #[derive(Debug, Clone, PartialEq)]
@@ -161,7 +162,13 @@ pub fn tokenize_expression(input: &str) -> Result<Vec<Token>, CompilerError> {
                         "unterminated string literal".to_owned(),
                     ));
                 }
-                tokens.push(Token::Str(chars[index + 1..end].iter().collect()));
+                let text: String = chars[index + 1..end].iter().collect();
+                // The `{…}` parts of a string are parsed and emitted, one inside the
+                // other, when the string is emitted.
+                if deepest_brace_nesting(&text) > MAX_NESTING {
+                    return Err(nesting::too_deep());
+                }
+                tokens.push(Token::Str(text));
                 index = end + 1;
             }
             '0'..='9' => {
@@ -313,14 +320,38 @@ pub fn split_top_level_commas(input: &str) -> Vec<&str> {
     parts
 }
 
+fn deepest_brace_nesting(text: &str) -> usize {
+    let mut open = 0usize;
+    let mut deepest = 0;
+    for ch in text.chars() {
+        match ch {
+            '{' => {
+                open += 1;
+                deepest = deepest.max(open);
+            }
+            '}' => open = open.saturating_sub(1),
+            _ => {}
+        }
+    }
+    deepest
+}
+
 struct ExpressionParser {
     tokens: Vec<Token>,
     current: usize,
+    /// Height of the expression tree the last `parse_*` call returned. Operators of
+    /// equal strength chain in a loop, so the tree can be much taller than the parser's
+    /// own recursion is deep.
+    height: usize,
 }
 
 impl ExpressionParser {
     fn new(tokens: Vec<Token>) -> Self {
-        Self { tokens, current: 0 }
+        Self {
+            tokens,
+            current: 0,
+            height: 0,
+        }
     }
 
     fn parse_expression(&mut self) -> Result<Expression, CompilerError> {
@@ -357,10 +388,21 @@ impl ExpressionParser {
         })
     }
 
+    /// Record the height of the tree just built, unless the passes that walk it
+    /// recursively could not take it.
+    fn grown(&mut self, height: usize) -> Result<(), CompilerError> {
+        if height > MAX_NESTING {
+            return Err(nesting::too_deep());
+        }
+        self.height = height;
+        Ok(())
+    }
+
     /// Precedence climbing: the right operand of an operator takes only operators that
     /// bind tighter than it.
     fn parse_binary(&mut self, min_precedence: u8) -> Result<Expression, CompilerError> {
         let mut expression = self.parse_unary()?;
+        let mut height = self.height;
 
         while let Some((operator, precedence)) = self.peek_infix() {
             if precedence <= min_precedence {
@@ -368,6 +410,8 @@ impl ExpressionParser {
             }
             self.current += 1;
             let right = self.parse_binary(precedence)?;
+            height = height.max(self.height) + 1;
+            self.grown(height)?;
             expression = Expression::Binary {
                 left: Box::new(expression),
                 operator,
@@ -375,12 +419,16 @@ impl ExpressionParser {
             };
         }
 
+        self.height = height;
         Ok(expression)
     }
 
     fn parse_unary(&mut self) -> Result<Expression, CompilerError> {
+        // Every way an expression can contain another one comes through here.
+        let _level = nesting::enter()?;
         if self.match_token(&Token::Bang) {
             let expr = self.parse_unary()?;
+            self.grown(self.height + 1)?;
             return Ok(Expression::Not(Box::new(expr)));
         }
         self.parse_primary()
@@ -391,6 +439,7 @@ impl ExpressionParser {
             CompilerError::invalid_source("expected expression but found end of input".to_owned())
         })?;
 
+        self.height = 1;
         match token {
             Token::Bool(value) => Ok(Expression::Bool(value)),
             Token::Int(value) => Ok(Expression::Int(value)),
@@ -400,10 +449,12 @@ impl ExpressionParser {
                 // Check if it's a function call: Ident followed by '('
                 if self.match_token(&Token::LeftParen) {
                     let mut args = Vec::new();
+                    let mut height = 0;
                     // Parse arguments until ')'
                     if self.peek() != Some(&Token::RightParen) {
                         loop {
                             args.push(self.parse_expression()?);
+                            height = height.max(self.height);
                             if !self.match_token(&Token::Comma) {
                                 break;
                             }
@@ -414,6 +465,7 @@ impl ExpressionParser {
                             "missing ')' in function call".to_owned(),
                         ));
                     }
+                    self.grown(height + 1)?;
                     Ok(Expression::FunctionCall { name, args })
                 } else {
                     Ok(Expression::Variable(name))
@@ -422,6 +474,7 @@ impl ExpressionParser {
             Token::DivertTarget(target) => Ok(Expression::DivertTarget(target)),
             Token::Minus => {
                 let expression = self.parse_unary()?;
+                self.grown(self.height + 1)?;
                 Ok(Expression::Negate(Box::new(expression)))
             }
             Token::LeftParen => {
@@ -448,6 +501,7 @@ impl ExpressionParser {
                             "missing ')' in list literal".to_owned(),
                         ));
                     }
+                    self.height = 1;
                     return Ok(Expression::ListItems(items));
                 }
                 if !self.match_token(&Token::RightParen) {
